@@ -21,6 +21,13 @@ def constant_speed_cases(tier):
                 L = math.hypot(R * math.radians(sw), dz or 0.0)
                 out.append((f"arc R{R} sweep{sw} dz{dz}", lambda s, d, R=R, sw=sw, dz=dz: c10.arc_case(s, d, R, sw, dz, 0), L, R))
         out.append((f"circle R{R}", lambda s, d, R=R: c10.circle_case(s, d, R, 60), TWO_PI * R, R))
+        # argument forms: a centre with a third component (hub given in 3-D), numpy arrays and numpy scalars
+        out.append((f"circle R{R} centre-3d", lambda s, d, R=R: c10.circle_case(s, d, R, 60, cz=-3.0 * R), TWO_PI * R, R))
+        out.append((f"arc R{R} sweep90 centre-3d", lambda s, d, R=R: c10.arc_case(s, d, R, 90, None, 0, cz=2.5 * R), R * math.pi / 2, R))
+        for ratio, sign in ((0.3, 1), (0.3, -1)):
+            half = math.asin(ratio)
+            sweep = 2 * half if sign > 0 else TWO_PI - 2 * half
+            out.append((f"arc_radius R{R} ratio{ratio} sign{sign} numpy", lambda s, d, R=R, ratio=ratio, sign=sign: with_form(c10.arc_radius_case(s, d, sign * R, ratio, 30), "np"), R * sweep, R))
         for ratio, sign in ((0.3, 1), (0.9, -1), (1.0, 1)):
             half = math.asin(ratio)
             sweep = 2 * half if sign > 0 else TWO_PI - 2 * half
@@ -35,6 +42,11 @@ def constant_speed_cases(tier):
         L = math.hypot(R * math.radians(sw), dz)
         out.append((f"steep arc R{R} sweep{sw} dz{dz}", lambda s, d, R=R, sw=sw, dz=dz: c10.arc_case(s, d, R, sw, dz, 0), L, R))
     return out
+
+
+def with_form(case, form):
+    shape, args, exp = case
+    return shape, {**args, "form": form}, exp
 
 
 def other_shapes():
